@@ -288,7 +288,7 @@ def verdict (maxLen : Nat) (saved : Bytes) (n : Int) (o : Obs) : Verdict :=
   let checks := [("one-line-per-binding", oneLine), ("bindings-equal", failing.isEmpty),
     ("load-errors", o.lines.errs == 0 && o.whole.errs == 0),
     ("second-save", o.lines.resaveSame && o.whole.resaveSame), ("calls", callsOk), ("limit", limOk),
-    ("files", o.files == "11111111")]
+    ("files", o.files.length ≥ 8 && o.files.toList.all (· == '1'))]
   { ok := checks.all (·.2), failing := failing, failingLines := sv.filter (fun b => !back o.lines b), reasons := (checks.filter (!·.2)).map (·.1) }
 
 /-! ### known-finding classes (decided from the value that failed) -/
